@@ -512,6 +512,20 @@ def ob_load(n, cls):
         sk_out = [g[1] for g in got if g[0] == "skip"]
         if len(sk_out) > len(sk_in):
             return ("comments-added",)
+        # the loaded object stays a faithful database: a user added now is in the next export, next to the loaded ones
+        if cls == "htpasswd":
+            ht.set_hash(b"Zed", b"9")
+        else:
+            ht.set_hash(b"Zed", b"R", b"9")
+        got2 = read_back(ht.to_string(), nf)
+        if any(g[0] == "bad" for g in got2):
+            return ("export-after-add-malformed",)
+        recs2 = [g[1] for g in got2 if g[0] == "rec"]
+        if len(recs2) != len(want) + 1:
+            return ("count-after-add", len(recs2), len(want) + 1)
+        last = recs2[-1]
+        if not (bytes(_conc(last[0])) == b"Zed" and bytes(_conc(last[-1])) == b"9"):
+            return ("added-user-missing",)
         return ("ok",)
     with patched(*_patches(A)):
         paths = explore(run, max_paths=60000)
@@ -527,6 +541,12 @@ def ob_load(n, cls):
                              {"module": "harness.c16", "func": "replay_load", "args": {"cls": cls, "text": list(t)}})
     return ok("%s load_string of all %d-byte texts over %r: %d paths; export holds each user once, first line wins, malformed refused" %
               (cls, n, ALPHA, len(paths)), paths=len(paths))
+
+
+def _conc(x):
+    """bytes of a field that must be concrete here (the added user)"""
+    x = SBytes.lift(x)
+    return [b if isinstance(b, int) else 0 for b in x.b]
 
 
 def replay_load(cls, text):
@@ -558,6 +578,19 @@ def replay_load(cls, text):
     got = [tuple(l.rstrip().split(b":")) for l in out.split(b"\n") if l.strip() and not l.lstrip().startswith(b"#")]
     if sorted(got) != sorted(k + (v,) for k, v in want.items()):
         return "load_string(%r).to_string() = %r: records %r, expected each user once: %r" % (t, out, got, want)
+    if cls == "htpasswd":
+        ht.set_hash("Zed", "9")
+        new = (b"Zed", b"9")
+    else:
+        ht.set_hash("Zed", "R", "9")
+        new = (b"Zed", b"R", b"9")
+    try:
+        back = F.from_string(ht.to_string())
+    except Exception as e:
+        return "after load_string(%r) and adding a user the export does not load: %r" % (t, e)
+    got2 = [tuple(l.rstrip().split(b":")) for l in back.to_string().split(b"\n") if l.strip() and not l.lstrip().startswith(b"#")]
+    if sorted(got2) != sorted([k + (v,) for k, v in want.items()] + [new]):
+        return "after load_string(%r) and adding user Zed the export is %r: the added user or a loaded one is missing" % (t, ht.to_string())
     return False
 
 
@@ -744,6 +777,64 @@ def ob_encode_field(n):
               paths=len(paths))
 
 
+def ob_encode_field_text(pattern):
+    """text names: the 255 limit counts encoded bytes, whatever the characters (symbolic characters of the given UTF-8 widths)"""
+    import passlib.apache as A
+    from vlib.sbytes import SStr, str_, bytes_
+    t, con = SStr.var("n", pattern)
+    nbytes = sum(pattern)
+    ok_chars = z3.And(*[z3.And(*[c != x for x in BAD]) for c in t.c])
+    ht = A.HtpasswdFile()
+
+    def run():
+        sym.assume(z3.And(con, ok_chars))
+        try:
+            r = ht._encode_field(t, "user")
+            return ("ok", r)
+        except ValueError:
+            return ("refused", None)
+    with patched(*(_patches(A) + [(A, "str", str_), (A, "bytes", bytes_)])):
+        paths = explore(run, max_paths=2000)
+    for p in paths:
+        if p.exc is not None:
+            return inconclusive("_encode_field raised %r" % (p.exc,))
+        want_refused = nbytes > 255
+        if (p.result[0] == "refused") != want_refused:
+            r, m = check(p.cond())
+            if r != "sat":
+                continue
+            name = "".join(chr(m.eval(c, True).as_long()) for c in t.c)
+            return violation("_encode_field(text of %d characters = %d bytes) %s" % (len(pattern), nbytes, p.result[0]), "htpasswd:field-text",
+                             {"module": "harness.c16", "func": "replay_field_text", "args": {"name": name}})
+        if p.result[0] == "ok":
+            eq = (SBytes.lift(p.result[1]) == SBytes.lift(t.encode("utf-8")))
+            e = eq.e if isinstance(eq, SBool) else z3.BoolVal(bool(eq))
+            r, m = check(p.cond(), z3.Not(e))
+            if r == "sat":
+                name = "".join(chr(m.eval(c, True).as_long()) for c in t.c)
+                return violation("_encode_field(text) does not return its UTF-8 bytes", "htpasswd:field-text",
+                                 {"module": "harness.c16", "func": "replay_field_text", "args": {"name": name}})
+    return ok("_encode_field, text of %d characters / %d encoded bytes (symbolic characters): %s (%d paths)" %
+              (len(pattern), nbytes, "refused" if nbytes > 255 else "accepted as its UTF-8 bytes", len(paths)), paths=len(paths))
+
+
+def replay_field_text(name):
+    import passlib.apache as A
+    b = name.encode("utf-8")
+    bad = any(c in BAD for c in b) or len(b) > 255
+    for F in (A.HtpasswdFile, A.HtdigestFile):
+        try:
+            r = F()._encode_field(name, "user")
+            got = False
+            if r != b:
+                return "_encode_field(%r...) = %r" % (name[:10], r[:20])
+        except ValueError:
+            got = True
+        if got != bad:
+            return "_encode_field(text of %d characters, %d bytes) refused=%r expected %r" % (len(name), len(b), got, bad)
+    return False
+
+
 def replay_field(val):
     import passlib.apache as A
     v = bytes(val)
@@ -780,6 +871,8 @@ def run(tier, seed, t0, only=None):
         obs.append(Ob("load[htdigest,n=%d]" % n, ob_load, {"n": n, "cls": "htdigest"}, timeout=3000))
     for n in (0, 1, 2, 3, 255, 256):
         obs.append(Ob("encode-field[n=%d]" % n, ob_encode_field, {"n": n}, timeout=900))
+    for pat in ((2,) * 127 + (1,), (2,) * 128, (3,) * 85, (3,) * 85 + (1,), (1,) * 255, (1,) * 256, (4,) * 64, (2, 1)):
+        obs.append(Ob("encode-field-text[%dx%d%s]" % (len(pat), pat[0], "+1" if pat[-1] != pat[0] else ""), ob_encode_field_text, {"pattern": pat}, timeout=900))
     for c_ in ("htpasswd", "htdigest"):
         for sc in ("save-elsewhere", "save-bound", "external-change", "no-save"):
             obs.append(Ob("reload[%s,%s]" % (c_, sc), ob_reload, {"cls": c_, "scenario": sc}, timeout=600))
